@@ -184,6 +184,14 @@ Proof.
   exact (history_pointwise R r0 r1 radd rmul rinv calls i _ H).
 Qed.
 
+(* The same for create_power_operator: the i-th operator of any sequence of calls is the pure function of the
+   i-th call's domain, binning and spectrum VALUES (what the spectrum callable returns at that moment). *)
+Theorem C10_operator_history_stateless :
+  forall (R : Type) r0 rmul (calls : list (ocall R)) i c,
+    nth_error calls i = Some c ->
+    nth_error (operator_history R r0 rmul calls) i = Some (run_ocall R r0 rmul c).
+Proof. exact ohistory_pointwise. Qed.
+
 (* In the rationals (characteristic 0) the field-level side condition on the member counts follows
    from the combinatorial one: non-empty bins have non-zero counts. *)
 Require Import Lia QArith Qcanon NV.C10.ProofsQc NV.C10.Corr.
